@@ -55,7 +55,7 @@ RelDiff(r, name, t, P) ==
 (* the same value as a later item of a response ("tr2") and through SCPI_NumberToStr ("tn"), where recorded *)
 More(r) == (IF "tr2" \in DOMAIN r THEN {<<"tr2", r.tr2, Prec(r)>>} ELSE {}) \cup (IF "tn" \in DOMAIN r THEN {<<"tn", r.tn, Prec(r)>>} ELSE {})
            \cup (IF "tsx" \in DOMAIN r THEN {<<"tsx", r.tsx, Prec(r)>>} ELSE {})       \* helper with a buffer the text fills exactly
-           \cup (IF "tsb" \in DOMAIN r THEN {<<"tsb", r.tsb, Prec(r)>>} ELSE {})       \* helper with a 300-byte buffer
+           \cup (IF "tsb" \in DOMAIN r THEN {<<"tsb", r.tsb, Prec(r)>>} ELSE {})       \* helper with a 256-byte buffer
 
 Diff(r) ==
   IF r.c # "fin"
